@@ -70,7 +70,9 @@ def font_spec(k: int) -> dict:
         # an existing glyph instead of adding one
         glyphs["uni25CC"] = {"width": 600, "unicodes": [0x25CC], "contours": [B.box(100, 100, 500, 500)]}
     spec = {"glyphs": glyphs, "order": list(glyphs), "lib": {"public.openTypeCategories": dict(CATS)},
-            "info": {"styleName": ["Regular", "Bold", "Light"][k]}, "layers": {}}
+            # the siblings differ in the vertical metrics that TransformationsFilter's Origin option reads
+            "info": {"styleName": ["Regular", "Bold", "Light"][k], "xHeight": 500 + 20 * k,
+                     "capHeight": 700 + 30 * k}, "layers": {}}
     if k == 0:
         spec["lib"][F + "colorPalettes"] = [[(1, 0.3, 0.1, 1), (0, 0.4, 0.8, 1)]]
         spec["lib"][F + "colorLayerMapping"] = [("color1", 0)]
